@@ -266,7 +266,8 @@ class Flow:
     def lookup(self, name):
         if name in self.env:
             v = self.env[name]
-            if name in self.acc and v is not None and v[0] != "param":
+            # (a comprehension target that re-uses the name of an accumulator local is the comprehension's own bound variable)
+            if name in self.acc and v is not None and v[0] not in ("param", "bv"):
                 # precise until the first element store / in-loop mutation can have happened
                 if name in self._mutated or any(name in st for st in self._loop_stored):
                     return ("acc", name)
